@@ -18,6 +18,8 @@ spec fn seq_sum(s: Seq<usize>) -> int
 fn vx_enumerate<I: Iterator>(it: I) -> (r: impl Iterator<Item = (usize, I::Item)>)
     ensures
         r.obeys_prophetic_iter_laws() == it.obeys_prophetic_iter_laws(),
+        r.decrease() is Some == it.decrease() is Some,
+        r.will_return_none() == it.will_return_none(),
         r.remaining().len() == it.remaining().len(),
         forall|i: int| 0 <= i < it.remaining().len() ==> #[trigger] r.remaining()[i] == (i as usize, it.remaining()[i]),
 { it.enumerate() }
